@@ -22,7 +22,7 @@ def one(name):
         meta["detected_by"] = dict(status="patch-does-not-apply-to-fixed-tree", note=ap.stderr[-300:])
         json.dump(meta, open(os.path.join(d, "meta.json"), "w"), indent=1)
         return name, "NOAPPLY", []
-    r = run(f"cd {ROOT} && VERIF_REPO={S} ./check {pid} --tier quick --jobs 6", timeout=3000)
+    r = run(f"cd {ROOT} && VERIF_REPO={S} VERIF_EVIDENCE_DIR={S}/.evidence ./check {pid} --tier quick --jobs 6", timeout=3000)
     out = r.stdout.replace(S, "<scratch>")
     viol = [l for l in out.splitlines() if l.startswith("VIOLATION")]
     obls = sorted({re.sub(r"#\d+", "", m.group(1)) for l in viol for m in [re.search(r"obligation=(.*?)( no-failing-input-found)?$", l)] if m})
@@ -35,7 +35,9 @@ def one(name):
     run(f"git -C /repo worktree remove --force {S}")
     run(f"rm -rf {ROOT}/replays/{pid}")
     return name, r.returncode, obls[:2] + bnds[:1]
-names = sorted(n for n in os.listdir(os.path.join(ROOT, "seeded")) if not sys.argv[1:] or n.split("_")[0] in sys.argv[1:])
+names = sorted(n for n in os.listdir(os.path.join(ROOT, "seeded")) if not sys.argv[1:] or n.split("_")[0] in sys.argv[1:] or n in sys.argv[1:])
+if os.environ.get("VARIANTS"):
+    names = [n for n in names if n.split("_")[1] in os.environ["VARIANTS"].split(",")]
 with cf.ThreadPoolExecutor(3) as ex:
     for name, rc, what in ex.map(one, names):
         print(name, rc, [w[:90] for w in what], flush=True)
